@@ -5,6 +5,7 @@ import (
 	"fmt"
 	"math"
 	"os/exec"
+	"runtime"
 	"strconv"
 	"strings"
 
@@ -85,6 +86,8 @@ type c11Job struct {
 	units []c11Unit
 	env   *impl.Env
 	small []gen.Num
+	// freshPools: empty the library's pools before the union forms (long-array family, omitted step)
+	freshPools bool
 }
 
 func newC11(tier string) run.Job {
@@ -139,6 +142,7 @@ func c11Forms(sub gen.Sub, n int) []struct {
 	}{
 		{gen.P('$', gen.Union(sub)), arr},
 		{gen.P('$', gen.Union(sub, gen.Idx(0), sub)), arr},
+		{gen.P('$', gen.Union(gen.Idx(0), sub)), arr},
 		{gen.P('$', gen.Rec(gen.Union(sub))), map[string]interface{}{"a": arr}},
 	}
 }
@@ -146,6 +150,12 @@ func c11Forms(sub gen.Sub, n int) []struct {
 func (j *c11Job) evalSub(c *run.Ctx, sub gen.Sub, n int, parsed map[string]impl.Func) {
 	for fi, f := range c11Forms(sub, n) {
 		c.Tick()
+		if j.freshPools && fi >= 1 {
+			// empty sync.Pool (two collections: primary and victim cache): the union forms then start
+			// with a freshly allocated, zero-capacity result buffer as in a new process
+			runtime.GC()
+			runtime.GC()
+		}
 		r := gen.Render(f.p, nil)
 		key := r.Text
 		fn, ok := parsed[key]
@@ -186,6 +196,9 @@ func (j *c11Job) evalSub(c *run.Ctx, sub gen.Sub, n int, parsed map[string]impl.
 			// judge a fresh evaluation only (DESIGN §5): a parsed function reused across array
 			// lengths that answers differently from a fresh one is history dependence (C05)
 			if fp := impl.Parse(r.Text, &j.env.Cfg); fp.F != nil {
+				// "fresh" as in a new process: freshly parsed function AND empty pools
+				runtime.GC()
+				runtime.GC()
 				fres := impl.Call(fp.F, gen.Clone(f.doc))
 				if fok, _, _ := c01Judge(&out, fres); fok {
 					c.Add("history_dependence_seen", 1)
@@ -270,7 +283,9 @@ func (j *c11Job) RunUnit(i int, c *run.Ctx) {
 		for _, e := range c11LongBounds() {
 			for _, t := range c11LongSteps() {
 				for _, n := range c11LongLens {
+					j.freshPools = t.Omitted && n > 16
 					j.evalSub(c, gen.Slice(s, e, t), n, parsed)
+					j.freshPools = false
 				}
 			}
 		}
